@@ -60,6 +60,7 @@ type FnCtx struct {
 	unfoldDepth int
 	modCache map[*ssa.Function]modResult
 	noDefine int
+	inQuant  int // >0 while the body of a quantifier of the spec language is being evaluated
 }
 
 func newFnCtx(w *World, fn *ssa.Function, spec *FuncSpec) *FnCtx {
@@ -140,8 +141,8 @@ func (fc *FnCtx) fresh(prefix, sort string, t types.Type) Term {
 
 // define introduces a named abbreviation for a term (keeps VCs a DAG).
 func (fc *FnCtx) define(prefix string, t Term) Term {
-	if len(t.S) < 40 || fc.noDefine > 0 {
-		return t
+	if len(t.S) < 40 || fc.noDefine > 0 || fc.inQuant > 0 {
+		return t // (inside a quantifier a term may mention bound variables: it cannot be named outside)
 	}
 	fc.n++
 	name := fmt.Sprintf("%s!%d", prefix, fc.n)
